@@ -30,7 +30,9 @@ def run(ctx):
                 "signature, foreign or corrupt host key / altered GEX request and group) replayed on the real halves of each real algorithm "
                 "of the method; (b) every real kex x host key type (ed25519, ecdsa-256/384/521, rsa-sha2-256/512, ssh-rsa, two certificate "
                 "types) untampered; (c) every (min,n,max) over 16 boundary values (4096 triples) plus seeded random uint32 triples through "
-                "chooseDH and the real GEX server half. distinct = distinct (algorithm, plan, variant) / (algorithm, host key) / triple")
+                "chooseDH and the real GEX server half; (d) forced shapes of the shared secret (ordinary, top bit set, leading zero octet, zero "
+                "octet then top bit, two leading zero octets) for every real algorithm against the client half and against the server half, the "
+                "harness being an independent peer that searches its own ephemeral secret. distinct = distinct (algorithm, plan, variant) / (algorithm, host key) / triple")
     ctx.assumptions = [
         "hash functions are injective on the hashed fields and signatures unforgeable (symbolic [by, over] signatures in the model)",
         "Go standard library primitives (crypto/ecdh, crypto/mlkem, crypto/elliptic, math/big, SHA-1/2, signature verification) trusted",
@@ -58,10 +60,10 @@ def run(ctx):
         ctx.states += r.distinct
         ctx.transitions += r.generated
         ctx.log("TLC %-4s %8d generated %8d distinct %6.1fs" % (cfg, r.generated, r.distinct, r.wall))
-    pre = [t for t in res["Q2"].traces if "pre" in t]
+    pre = [t for t in res["Q2"].traces if "pre" in t] + [t for t in res["Q2"].traces if "kshape" in t]
     plans = [t for t in res["Q2"].traces if "plan" in t]
     gex = [dict(t, gexprobe=True) for t in res["Gex"].traces if "plan" in t]
-    if len(pre) < 75 or len(plans) != 869 or len(gex) != 4096:
+    if len(pre) < 150 or len(plans) != 869 or len(gex) != 4096:
         raise vlib.Infra("generator output incomplete: %d preimage records, %d plans, %d requests" % (len(pre), len(plans), len(gex)))
     out = ctx.go_test("c29", "TestKex", cases=pre + plans + gex, timeout=1800)
     ctx.absorb(out)
